@@ -48,6 +48,9 @@ func (d *uintDecoder) parseUint(b []byte) (uint64, error) {
 	if maxDigit > pow10u64Len {
 		return 0, fmt.Errorf("invalid length of number")
 	}
+	if maxDigit == pow10u64Len && string(b) > "18446744073709551615" {
+		return 0, fmt.Errorf("number out of range")
+	}
 	sum := uint64(0)
 	for i := 0; i < maxDigit; i++ {
 		c := uint64(b[i]) - 48
